@@ -70,6 +70,7 @@ package keeper
 //@   requires st.gasPrice != nil && st.gasFeeCap != nil && st.gasTipCap != nil && st.evm.Context.BlockNumber != nil && st.msg.Value() != nil
 //@   requires londonActive(st.evm.ChainConfig(), bigval[st.evm.Context.BlockNumber]) ==> st.evm.Context.BaseFee != nil
 //@   requires st.gas == 0 && st.value == st.msg.Value() && st.state == st.evm.StateDB
+//@   requires bigval[st.msg.Value()] >= 0 && sdbBal[payload(st.state)][st.msg.From()] >= 0
 //@   requires st.evm.Config.Debug ==> st.evm.Config.Tracer != nil
 //@   modifies st.gas, st.initialGas, *st.gp, sdbNonce[payload(st.state)], sdbBal[payload(st.state)], sdbSupply[payload(st.state)], sdbRefund[payload(st.state)], sdbCodeHash[payload(st.state)], sdbOther[payload(st.state)], elems(type(common.Address))
 //@   ensures[C05.used_gas] err == nil ==> (res != nil && st.initialGas == st.msg.Gas() && st.gas <= st.initialGas && res.UsedGas == st.initialGas - st.gas)
@@ -169,6 +170,7 @@ package keeper
 //@ func (k *Keeper) ApplyMessageWithConfig(ctx sdk.Context, msg core.Message, tracer corevm.EVMLogger, commit bool, cfg *evmvm.EVMConfig, txConfig evmvm.TxConfig) (res *evmtypes.MsgEthereumTxResponse, err error)
 //@   requires k != nil && cfg != nil && msg != nil && cfg.ChainConfig != nil
 //@   requires msg.GasPrice() != nil && msg.GasFeeCap() != nil && msg.GasTipCap() != nil && msg.Value() != nil
+//@   requires bigval[msg.Value()] >= 0
 //@   requires londonActive(cfg.ChainConfig, ctx.BlockHeight()) ==> cfg.BaseFee != nil
 //@   requires txConfig.TxType != nil ==> *txConfig.TxType <= 2
 //@   ensures[C05.gas_used_le_limit] err == nil ==> (res != nil && res.GasUsed <= msg.Gas())
@@ -207,6 +209,7 @@ package keeper
 // the whole gas limit (the two earlier error returns need an unknown block proposer / an invalid signature).
 //@ func (k *Keeper) ApplyTransaction(ctx sdk.Context, tx *ethtypes.Transaction) (res *evmtypes.MsgEthereumTxResponse, err error)
 //@   requires k != nil && tx != nil && ctx.GasMeter() != nil
+//@   requires txValue(tx) >= 0
 //@   requires txType(tx) <= 2 && gmLimit(payload(ctx.GasMeter())) == txGas(tx) && gmConsumed[payload(ctx.GasMeter())] <= gmLimit(payload(ctx.GasMeter()))
 //@   ensures[C05.consensus_gas_is_receipt_gas] err == nil ==> (res != nil && gmConsumed[payload(ctx.GasMeter())] == res.GasUsed && res.GasUsed <= txGas(tx) && trGas[layer(ctx)][max(1, trCount[layer(ctx)]) - 1] == res.GasUsed)
 //@   ensures[C05.consume_all_on_core_error] (err != nil && coinbaseKnown(layer(ctx), hdr(ctx)) && txSigOk(tx)) ==> gmConsumed[payload(ctx.GasMeter())] == gmLimit(payload(ctx.GasMeter()))
@@ -216,4 +219,26 @@ package keeper
 //@   assumed
 //@   modifies nothing
 //@   ensures result == (sumTo(trLogs[layer(ctx)], max(1, trCount[layer(ctx)])) - (exceptCurrent ? trLogs[layer(ctx)][max(1, trCount[layer(ctx)]) - 1] : 0)) % pow2(64)
+//@   panics never
+
+// ---------------------------------------------------------------------------------------------
+// params.go / keeper.go — accessors
+// ---------------------------------------------------------------------------------------------
+//@ import bankkeeper "github.com/cosmos/cosmos-sdk/x/bank/keeper"
+
+// the stored x/evm Params record per store layer (trusted summary of store + protobuf codec)
+//@ ghost var evmDenomOf map[int]string
+//@ ghost var evmEnableCreate map[int]bool
+//@ ghost var evmEnableCall map[int]bool
+//@ func (k Keeper) GetParams(ctx sdk.Context) (params evmtypes.Params)
+//@   assumed
+//@   modifies nothing
+//@   ensures params.EvmDenom == evmDenomOf[layer(ctx)] && params.EnableCreate == evmEnableCreate[layer(ctx)] && params.EnableCall == evmEnableCall[layer(ctx)]
+//@   panics never
+
+// GetBalance: the EVM-denomination bank balance of the address (C04/C08 view function)
+//@ func (k *Keeper) GetBalance(ctx sdk.Context, addr common.Address) *big.Int
+//@   requires k != nil && k.bankKeeper != nil
+//@   modifies nothing
+//@   ensures[C04.balance_view] result != nil && bigval[result] == (evmDenomOf[layer(ctx)] == "" ? -1 : bankBal[layer(ctx)][addrBytes(addr)][evmDenomOf[layer(ctx)]])
 //@   panics never
